@@ -71,6 +71,11 @@ func sysStart(kinds []int, nreq int, budget int) *sysRun {
 	b.allowConnect = verifParam("connectfaults", 0) == 1
 	b.allowDialErr = verifParam("dialfaults", 0) == 1
 	b.maxDials = 2*budget + 3
+	b.sessionLoss = verifParam("sessionloss", 0) == 1 // a reconnect may find the session gone (not for C02)
+	always := false
+	if verifParam("always", 0) == 1 {
+		always = verifChoice("alwaysresub", 2) == 1
+	}
 	s.b = b
 	verifSetRand(100)
 	rc := &RetryClient{}
@@ -79,7 +84,7 @@ func sysStart(kinds []int, nreq int, budget int) *sysRun {
 	if !verifSymbolic() {
 		unit = 10 * time.Millisecond // native replay: scaled durations
 	}
-	cli, err := NewReconnectClient(b, WithReconnectWait(unit, 4*unit), WithTimeout(10*unit), WithRetryClient(rc))
+	cli, err := NewReconnectClient(b, WithReconnectWait(unit, 4*unit), WithTimeout(10*unit), WithRetryClient(rc), WithAlwaysResubscribe(always))
 	verifAssert(err == nil, "SYS.new_client")
 	s.cli = cli
 	for i := 0; i < nreq; i++ {
@@ -362,7 +367,13 @@ func sysScenario(kinds []int, which string) {
 }
 
 func VerifH_SYS_C01() { sysScenario([]int{rkPub1, rkPub2, rkSub, rkUnsub}, "C01") }
-func VerifH_SYS_C02() { sysScenario([]int{rkPub2, rkPub1}, "C02") }
+func VerifH_SYS_C02() {
+	kinds := []int{rkPub2, rkPub1}
+	if verifParam("withsub", 0) == 1 {
+		kinds = append(kinds, rkSub) // an established subscription makes reconnects re-subscribe (AlwaysResubscribe)
+	}
+	sysScenario(kinds, "C02")
+}
 func VerifH_SYS_C03() { sysScenario([]int{rkPub0, rkPub1, rkPub2, rkSub}, "C03") }
 func VerifH_SYS_C12() { sysScenario([]int{rkPub0, rkPub1, rkPub2}, "C12") }
 func VerifH_SYS_C15() { sysScenario([]int{rkPub1, rkPub2}, "C15") }
